@@ -384,7 +384,7 @@ def _merge(a, b):
 
 def report(prop, tier, seed, results, w, gen_wall, t0):
     known = w.known
-    n_ob = n_dis = n_known = 0
+    n_ob = n_dis = n_known = n_other = 0
     undecided, violations, faults = [], [], []
     backends = {}
     solver_s = 0.0
@@ -411,7 +411,19 @@ def report(prop, tier, seed, results, w, gen_wall, t0):
                           "paths": r.get("paths", 0), "obligations": len(r["obligations"]),
                           "exits_reached": len(r.get("covers", []))})
         externals |= set(r.get("externals", []))
+        own = False
+        if r["kind"] == "contract":
+            con_ = w.contracts[tuple(r["key"])]
+            tags_ = set(con_.props)
+            for t_ in con_.clause_tags.values():
+                tags_ |= set(t_)
+            own = prop in tags_
         for ob in r["obligations"]:
+            if own and ob.get("props") and prop not in ob["props"]:
+                # a clause of this function that is tagged for other properties only (e.g. the exceptional
+                # frame for C04): decided under those properties, not counted or reported here
+                n_other += 1
+                continue
             n_ob += 1
             solver_s += ob["secs"]
             backends[ob["backend"]] = backends.get(ob["backend"], 0) + 1
@@ -471,7 +483,7 @@ def report(prop, tier, seed, results, w, gen_wall, t0):
         "property_id": prop, "tier": tier, "seed": seed, "level": level,
         "coverage": {
             "obligations": n_ob, "discharged": n_dis + (0 if level == "proof" else 0), "failed_known": n_known,
-            "undecided": len(undecided), "refuted_new": len(seen_v),
+            "undecided": len(undecided), "refuted_new": len(seen_v), "obligations_of_other_properties_skipped": n_other,
             "checker_cmd": "./check %s --tier %s" % (prop, tier),
             "trusted_base": trusted,
             "functions_under_contract": functions,
